@@ -114,6 +114,10 @@ func evalExecInner(toks []string) string {
 	}
 	env := zygo.NewZlisp()
 	defer env.Close()
+	if len(toks) > 0 && toks[0] == "+std" {
+		toks = toks[1:] // channel `lazy` (C16): typed `func` declarations need the standard builders
+		env.StandardSetup()
+	}
 	var trace []string
 	env.AddFunction("trace", func(env *zygo.Zlisp, name string, args []zygo.Sexp) (zygo.Sexp, error) {
 		if len(args) == 0 {
